@@ -28,6 +28,19 @@ type passDR struct{ passD }
 
 func (d *passDR) Reset(r io.Reader) { d.r = r }
 
+// passDC is passD with an io.Closer whose Close fails when told to.
+type passDC struct {
+	passD
+	fail *bool
+}
+
+func (d *passDC) Close() error {
+	if *d.fail {
+		return fmt.Errorf("decompressor close failed")
+	}
+	return nil
+}
+
 type errAfter struct {
 	data []byte
 	pos  int
@@ -266,7 +279,7 @@ func c18x(c *ctx) {
 		return plainReader{bytes.NewReader(data)}
 	}
 	for _, resetter := range []bool{false, true} {
-		for _, h := range []string{"none", "partial", "eof", "srcerr"} {
+		for _, h := range []string{"none", "partial", "eof", "srcerr", "closeerr", "closeok"} {
 			for _, hb := range []bool{true, false} { // the history's source is a byte reader or not
 				for _, sb := range []bool{true, false} {
 					for si, srcLen := range []int{0, 1, 8, 9, 30} {
@@ -275,8 +288,12 @@ func c18x(c *ctx) {
 							if !vh.Only(key) {
 								continue
 							}
+							closeFails := false
 							mk := func(src io.Reader) *wsflate.Reader {
 								return wsflate.NewReader(src, func(x io.Reader) wsflate.Decompressor {
+									if h == "closeerr" || h == "closeok" {
+										return &passDC{passD{x, true}, &closeFails}
+									}
 									if resetter {
 										return &passDR{passD{x, true}}
 									}
@@ -307,6 +324,11 @@ func c18x(c *ctx) {
 								r.Read(make([]byte, 3))
 							case "eof", "srcerr":
 								io.ReadAll(r)
+							case "closeerr", "closeok": // the earlier use ended with Close(), which failed / succeeded
+								io.ReadAll(r)
+								closeFails = h == "closeerr"
+								r.Close()
+								closeFails = false
 							}
 							data := vh.PBytes(4, 0, srcLen)
 							var reused []string
